@@ -159,3 +159,11 @@ def replay(c: Campaign, rec: dict[str, Any]) -> int:
     if not viol:
         print("replay: no violation")
     return 1 if viol else 0
+
+
+def regress(c: Campaign, rec: dict[str, Any]) -> None:
+    case = rec["case"]
+    run_ = Run(case["spec"], make_schedule(case["schedule"]))
+    apply_injections(run_, case["spec"], case["inj"])
+    run_.drain()
+    judge_audit(c, run_.w.audit(), case, ["regression"], "D")
